@@ -80,10 +80,27 @@ class Prop(core.Prop):
         for mk in ('none', 'one', 'column'):
             for mi in (0, 6):
                 yield dict(group, miss=mi, mask=mk, comments=0, indep_units=True, source='built-values')
+        # every dependent variable has its OWN missing code (masked data in a variable that is not the last one);
+        # source variables that carry a user attribute named 'scale' (the written data are physical values)
+        for mk in MASKS:
+            for mi in (0, 1, 3):
+                for src in ('built', 'text', 'built-fillvalue'):
+                    if src == 'built-fillvalue' and mk in ('none', 'near'):
+                        continue
+                    yield dict(group, miss=mi, mask=mk, comments=0, indep_units=True, source=src, percode=True)
+            yield dict(group, miss=0, mask=mk, comments=0, indep_units=True, source='built', scale_attr=True)
+            yield dict(group, miss=0, mask=mk, comments=15, indep_units=True, source='built', scale_attr=True,
+                       percode=True)
         # whole seconds stored in an integer-typed independent variable next to float dependents
         for mk in MASKS:
             for mi in (0, 2):
                 yield dict(group, miss=mi, mask=mk, comments=0, indep_units=True, source='built', time_int=True)
+
+    def misses(self, case):
+        miss = MISS[case['miss']]
+        if case.get('percode'):
+            return [miss, -7777., -88888.][:case['ndep']]
+        return [miss] * case['ndep']
 
     def table(self, case):
         nrec, ndep = case['nrec'], case['ndep']
@@ -111,15 +128,16 @@ class Prop(core.Prop):
     def build(self, case, t, m):
         P = lib.pnc()
         miss = MISS[case['miss']]
+        misses = self.misses(case)
         nrec, ndep = t.shape
         comments = [COMMENTS[i] for i in range(4) if case['comments'] >> i & 1]
         time = np.arange(nrec, dtype='d') * 60. + 36000.
         if case['source'] == 'text':
             rows = []
             for i in range(nrec):
-                rows.append([time[i]] + [miss if m[i, j] else t[i, j] for j in range(ndep)])
+                rows.append([time[i]] + [misses[j] if m[i, j] else t[i, j] for j in range(ndep)])
             rec = dict(indep=('Start_UTC', 'seconds' if case['indep_units'] else None),
-                       deps=[(NAMES[j], UNITS[j], miss) for j in range(ndep)],
+                       deps=[(NAMES[j], UNITS[j], misses[j]) for j in range(ndep)],
                        normal=comments, rows=rows)
             path = os.path.join(self.tmp, 'src_%d.ict' % os.getpid())
             with open(path, 'w') as fh:
@@ -148,20 +166,22 @@ class Prop(core.Prop):
                 indep()
             if case['source'] == 'built-values':
                 # data handed over as a masked array: the array keeps numpy's own fill value next to missing_value
-                v = f.createVariable(NAMES[j], 'd', ('POINTS',), missing_value=miss, units=UNITS[j],
+                v = f.createVariable(NAMES[j], 'd', ('POINTS',), missing_value=misses[j], units=UNITS[j],
                                      values=np.ma.MaskedArray(t[:, j].copy(), mask=m[:, j].copy()))
                 continue
             if case['source'] == 'built-fillvalue':
                 # masked variable that carries its missing code only as the fill value
-                v = f.createVariable(NAMES[j], 'd', ('POINTS',), fill_value=miss, units=UNITS[j])
+                v = f.createVariable(NAMES[j], 'd', ('POINTS',), fill_value=misses[j], units=UNITS[j])
             else:
-                v = f.createVariable(NAMES[j], 'd', ('POINTS',), missing_value=miss, units=UNITS[j])
+                v = f.createVariable(NAMES[j], 'd', ('POINTS',), missing_value=misses[j], units=UNITS[j])
             v[:] = np.ma.MaskedArray(t[:, j], mask=m[:, j])
+            if case.get('scale_attr'):
+                v.scale = (0.001, 1000., 2.5)[j]
         if case['source'] == 'built-depfirst' and ndep == 1:
             indep()
         return f
 
-    def compare(self, g, t, m, miss, ndep, sig, scope, tag):
+    def compare(self, g, t, m, misses, ndep, sig, scope, tag):
         vs = []
         names = [k for k in g.variables.keys()]
         want = ['Start_UTC'] + list(NAMES[:ndep])
@@ -176,9 +196,9 @@ class Prop(core.Prop):
             if getattr(v, 'units', None) != UNITS[j]:
                 vs.append(viol('units', sig, '%s: %s units %r expected %r' % (tag, NAMES[j], getattr(v, 'units', None),
                                                                               UNITS[j]), **scope))
-            if float(getattr(v, 'missing_value', np.nan)) != miss:
+            if float(getattr(v, 'missing_value', np.nan)) != misses[j]:
                 vs.append(viol('missing-code', sig, '%s: %s missing_value %r expected %r'
-                               % (tag, NAMES[j], getattr(v, 'missing_value', None), miss), **scope))
+                               % (tag, NAMES[j], getattr(v, 'missing_value', None), misses[j]), **scope))
             if gm.shape != m[:, j].shape or not np.array_equal(gm, m[:, j]):
                 vs.append(viol('mask', sig, '%s: %s mask %s expected %s' % (tag, NAMES[j], gm.astype(int).tolist(),
                                                                             m[:, j].astype(int).tolist()), **scope))
@@ -194,11 +214,13 @@ class Prop(core.Prop):
         from PseudoNetCDF.icarttfiles.ffi1001 import ncf2ffi1001
         t, m = self.table(case)
         miss = MISS[case['miss']]
+        misses = self.misses(case)
         ndep = case['ndep']
         st = [h64('c19', sorted(case.items()))]
         sig = ('ffi1001', case['source'])
         scope = dict(source=case['source'], mask=case['mask'], nrec=case['nrec'], ndep=ndep,
-                     indep_units=case['indep_units'], ncomments=bin(case['comments']).count('1'), miss=miss)
+                     indep_units=case['indep_units'], ncomments=bin(case['comments']).count('1'), miss=miss,
+                     percode=bool(case.get('percode')), scale_attr=bool(case.get('scale_attr')))
         vs = []
         ntrans = 0
         try:
@@ -229,14 +251,14 @@ class Prop(core.Prop):
                            % (p['ndep'], len(p['depvars']), sorted(set(len(r) for r in p['rows']))), **scope))
         if len(p['rows']) != case['nrec']:
             vs.append(viol('record-count', sig, '%d rows for %d records' % (len(p['rows']), case['nrec']), **scope))
-        if [d[0] for d in p['depvars']] != list(NAMES[:ndep]) or p['missing'] != [miss] * ndep:
+        if [d[0] for d in p['depvars']] != list(NAMES[:ndep]) or p['missing'] != misses:
             vs.append(viol('header-content', sig, 'vars %r missing %r' % (p['depvars'], p['missing']), **scope))
         if vs:
             return result('viol', vs, st, ntrans)
         try:
             g = P.pncopen(out1, format='ffi1001')
             ntrans += 1
-            vs.extend(self.compare(g, t, m, miss, ndep, sig, scope, 'first read'))
+            vs.extend(self.compare(g, t, m, misses, ndep, sig, scope, 'first read'))
             ga = P.pncopen(out1)
             ntrans += 1
             if type(ga).__name__ != 'ffi1001':
@@ -244,7 +266,7 @@ class Prop(core.Prop):
             ncf2ffi1001(g, out2).close()
             g2 = P.pncopen(out2, format='ffi1001')
             ntrans += 2
-            vs.extend(self.compare(g2, t, m, miss, ndep, sig, scope, 'second cycle'))
+            vs.extend(self.compare(g2, t, m, misses, ndep, sig, scope, 'second cycle'))
             d1 = {k: np.ma.filled(g.variables[k][...], np.nan).tolist() for k in g.variables.keys()}
             d2 = {k: np.ma.filled(g2.variables[k][...], np.nan).tolist() for k in g2.variables.keys()}
             if repr(d1) != repr(d2):
